@@ -274,8 +274,11 @@ REF_FCN static REF_STATUS ref_import_ugrid(REF_GRID *ref_grid_ptr,
   ref_cell = ref_grid_tri(ref_grid);
   nodes[3] = REF_EMPTY;
   for (tri = 0; tri < ntri; tri++) {
-    for (node = 0; node < 3; node++)
+    for (node = 0; node < 3; node++) {
       RES(1, fscanf(file, "%d", &(nodes[node])), "tri");
+      RAS(1 <= nodes[node] && nodes[node] <= nnode,
+          "tri vertex index out of range");
+    }
     nodes[0]--;
     nodes[1]--;
     nodes[2]--;
@@ -286,8 +289,11 @@ REF_FCN static REF_STATUS ref_import_ugrid(REF_GRID *ref_grid_ptr,
   ref_cell = ref_grid_qua(ref_grid);
   nodes[4] = REF_EMPTY;
   for (qua = 0; qua < nqua; qua++) {
-    for (node = 0; node < 4; node++)
+    for (node = 0; node < 4; node++) {
       RES(1, fscanf(file, "%d", &(nodes[node])), "qua");
+      RAS(1 <= nodes[node] && nodes[node] <= nnode,
+          "qua vertex index out of range");
+    }
     nodes[0]--;
     nodes[1]--;
     nodes[2]--;
@@ -311,8 +317,11 @@ REF_FCN static REF_STATUS ref_import_ugrid(REF_GRID *ref_grid_ptr,
 
   ref_cell = ref_grid_tet(ref_grid);
   for (cell = 0; cell < ntet; cell++) {
-    for (node = 0; node < 4; node++)
+    for (node = 0; node < 4; node++) {
       RES(1, fscanf(file, "%d", &(nodes[node])), "tet");
+      RAS(1 <= nodes[node] && nodes[node] <= nnode,
+          "tet vertex index out of range");
+    }
     nodes[0]--;
     nodes[1]--;
     nodes[2]--;
@@ -324,8 +333,11 @@ REF_FCN static REF_STATUS ref_import_ugrid(REF_GRID *ref_grid_ptr,
 
   ref_cell = ref_grid_pyr(ref_grid);
   for (cell = 0; cell < npyr; cell++) {
-    for (node = 0; node < 5; node++)
+    for (node = 0; node < 5; node++) {
       RES(1, fscanf(file, "%d", &(nodes[node])), "pyr");
+      RAS(1 <= nodes[node] && nodes[node] <= nnode,
+          "pyr vertex index out of range");
+    }
     nodes[0]--;
     nodes[1]--;
     nodes[2]--;
@@ -338,8 +350,11 @@ REF_FCN static REF_STATUS ref_import_ugrid(REF_GRID *ref_grid_ptr,
 
   ref_cell = ref_grid_pri(ref_grid);
   for (cell = 0; cell < npri; cell++) {
-    for (node = 0; node < 6; node++)
+    for (node = 0; node < 6; node++) {
       RES(1, fscanf(file, "%d", &(nodes[node])), "pri");
+      RAS(1 <= nodes[node] && nodes[node] <= nnode,
+          "pri vertex index out of range");
+    }
     nodes[0]--;
     nodes[1]--;
     nodes[2]--;
@@ -358,8 +373,11 @@ REF_FCN static REF_STATUS ref_import_ugrid(REF_GRID *ref_grid_ptr,
 
   ref_cell = ref_grid_hex(ref_grid);
   for (cell = 0; cell < nhex; cell++) {
-    for (node = 0; node < 8; node++)
+    for (node = 0; node < 8; node++) {
       RES(1, fscanf(file, "%d", &(nodes[node])), "hex");
+      RAS(1 <= nodes[node] && nodes[node] <= nnode,
+          "hex vertex index out of range");
+    }
     nodes[0]--;
     nodes[1]--;
     nodes[2]--;
@@ -483,8 +501,8 @@ REF_FCN static REF_STATUS ref_import_bin_ugrid_chunk(FILE *file, REF_BOOL swap,
 }
 
 REF_FCN static REF_STATUS ref_import_bin_ugrid_c2n(REF_CELL ref_cell,
-                                                   REF_INT ncell, FILE *file,
-                                                   REF_BOOL swap,
+                                                   REF_INT ncell, REF_INT nnode,
+                                                   FILE *file, REF_BOOL swap,
                                                    REF_BOOL fat) {
   REF_INT node_per, max_chunk, nread, chunk, cell, node, new_cell;
   REF_INT nodes[REF_CELL_MAX_SIZE_PER];
@@ -504,6 +522,12 @@ REF_FCN static REF_STATUS ref_import_bin_ugrid_c2n(REF_CELL ref_cell,
           "c2n");
       for (cell = 0; cell < chunk; cell++) {
         for (node = 0; node < node_per; node++) {
+          if (c2n[node + node_per * cell] < 1 ||
+              nnode < c2n[node + node_per * cell]) {
+            printf("cell vertex %d of %d nodes\n", c2n[node + node_per * cell],
+                   nnode);
+            RSS(REF_INVALID, "cell vertex index out of range");
+          }
           nodes[node] = c2n[node + node_per * cell] - 1;
         }
         RSS(ref_cell_add(ref_cell, nodes, &new_cell), "new cell");
@@ -596,9 +620,11 @@ REF_FCN static REF_STATUS ref_import_bin_ugrid(REF_GRID *ref_grid_ptr,
   if (0 < ref_mpi_timing(ref_mpi))
     ref_mpi_stopwatch_stop(ref_mpi, "ugrid node");
 
-  RSS(ref_import_bin_ugrid_c2n(ref_grid_tri(ref_grid), ntri, file, swap, fat),
+  RSS(ref_import_bin_ugrid_c2n(ref_grid_tri(ref_grid), ntri, nnode, file, swap,
+                               fat),
       "tri face nodes");
-  RSS(ref_import_bin_ugrid_c2n(ref_grid_qua(ref_grid), nqua, file, swap, fat),
+  RSS(ref_import_bin_ugrid_c2n(ref_grid_qua(ref_grid), nqua, nnode, file, swap,
+                               fat),
       "qua face nodes");
 
   RSS(ref_import_bin_ugrid_bound_tag(ref_grid_tri(ref_grid), ntri, file, swap,
@@ -609,16 +635,20 @@ REF_FCN static REF_STATUS ref_import_bin_ugrid(REF_GRID *ref_grid_ptr,
       "tri face tags");
   if (0 < ref_mpi_timing(ref_mpi)) ref_mpi_stopwatch_stop(ref_mpi, "ugrid tri");
 
-  RSS(ref_import_bin_ugrid_c2n(ref_grid_tet(ref_grid), ntet, file, swap, fat),
+  RSS(ref_import_bin_ugrid_c2n(ref_grid_tet(ref_grid), ntet, nnode, file, swap,
+                               fat),
       "tet face nodes");
   if (0 < ref_mpi_timing(ref_mpi)) ref_mpi_stopwatch_stop(ref_mpi, "ugrid tet");
-  RSS(ref_import_bin_ugrid_c2n(ref_grid_pyr(ref_grid), npyr, file, swap, fat),
+  RSS(ref_import_bin_ugrid_c2n(ref_grid_pyr(ref_grid), npyr, nnode, file, swap,
+                               fat),
       "pyr face nodes");
   if (0 < ref_mpi_timing(ref_mpi)) ref_mpi_stopwatch_stop(ref_mpi, "ugrid pyr");
-  RSS(ref_import_bin_ugrid_c2n(ref_grid_pri(ref_grid), npri, file, swap, fat),
+  RSS(ref_import_bin_ugrid_c2n(ref_grid_pri(ref_grid), npri, nnode, file, swap,
+                               fat),
       "pri face nodes");
   if (0 < ref_mpi_timing(ref_mpi)) ref_mpi_stopwatch_stop(ref_mpi, "ugrid pri");
-  RSS(ref_import_bin_ugrid_c2n(ref_grid_hex(ref_grid), nhex, file, swap, fat),
+  RSS(ref_import_bin_ugrid_c2n(ref_grid_hex(ref_grid), nhex, nnode, file, swap,
+                               fat),
       "hex face nodes");
   if (0 < ref_mpi_timing(ref_mpi)) ref_mpi_stopwatch_stop(ref_mpi, "ugrid hex");
 
